@@ -160,4 +160,5 @@ def translate(repo, TieBroken):
          "def cosineExprs : List (String × String) :=\n  [" + ",\n   ".join(
              f"({_lean_str(t)}, {_lean_str(v)})" for t, v in cos_exprs) + "]",
          "", "end NipyVerif.C07.Gen", ""]
-    return [("NipyVerif/Gen/C07Source.lean", "\n".join(L))]
+    from harness.props import c07_expr
+    return [("NipyVerif/Gen/C07Source.lean", "\n".join(L)), c07_expr.translate_exprs(repo, TieBroken)]
